@@ -9,6 +9,7 @@ use octo_squirrel::protocol::socks5::Socks5CommandStatus;
 use octo_squirrel::protocol::socks5::message::Socks5CommandResponse;
 use tokio::io::AsyncReadExt;
 use tokio::io::AsyncWriteExt;
+use tokio::io::Interest;
 use tokio::net::TcpStream;
 
 pub enum Proxy {
@@ -78,6 +79,9 @@ async fn recognize(stream: &mut TcpStream) -> Result<Proxy, anyhow::Error> {
                 (_, Some(path), Some(method)) => return Ok(recognize_http(method, path)?),
                 (Ok(httparse::Status::Partial), _, _) if len > 0 && len < buf.len() => {
                     // the request line has not arrived completely yet (peek cannot wait for more than it already sees)
+                    if stream.ready(Interest::READABLE).await?.is_read_closed() {
+                        return Ok(Proxy::Unknown);
+                    }
                     tokio::time::sleep(Duration::from_millis(5)).await;
                 }
                 (_, None, Some(_)) => {
